@@ -56,17 +56,16 @@ def is_arr(value):
 is_array = is_arr
 
 def is_int(value):
-    """ is value an int, or any variant of np.intN type"""
-    return isinstance(value, (int, np.int64, np.int32, np.int16, np.int8))
+    """ is value an int, or any numpy integer type (signed or unsigned, of any width)"""
+    return isinstance(value, (int, np.integer))
 
 def is_float(value):
-    """ is value an float, or any variant of np.float """
-    return isinstance(value, (float, np.float16, np.float32, np.float64))
+    """ is value an float, or any numpy float type (of any width) """
+    return isinstance(value, (float, np.floating))
 
 def is_num(value):
     """ is _int(value) or is_float(value)"""
-    return isinstance(value, (int, np.int64, np.int32, np.int16, np.int8, 
-                              float, np.float16, np.float32, np.float64))
+    return isinstance(value, (int, np.integer, float, np.floating))
 
 def is_bool(value):
     """ is value a Bool, or a np.bool_ type"""
